@@ -1,5 +1,5 @@
 (* C17 - proofs about the status-bookkeeping model (Model/C17.v). *)
-From Coq Require Import List NArith Bool Lia.
+From Coq Require Import List NArith PeanoNat Bool Lia Permutation.
 Import ListNotations.
 From SygmaV Require Import Model.C17.
 Local Open Scope N_scope.
@@ -463,6 +463,53 @@ Proof.
   apply andb_true_iff in H. destruct H as [H1 H2]. apply dep_eqb_eq in H1. apply IH in H2. subst. reflexivity.
 Qed.
 
+(* the multiset comparison of the judge *)
+Lemma dep_eqb_iff : forall a b, dep_eqb a b = true <-> a = b.
+Proof. intros a b. split; [apply dep_eqb_eq|]. intros ->. apply dep_eqb_refl. Qed.
+
+Definition dep_dec : forall a b : deposit, {a = b} + {a <> b}.
+Proof.
+  intros a b. destruct (dep_eqb a b) eqn:E.
+  - left. apply dep_eqb_eq. exact E.
+  - right. intro H. apply dep_eqb_iff in H. congruence.
+Defined.
+
+Lemma count_occ_dep : forall d l, count_occ dep_dec l d = count_dep d l.
+Proof.
+  intros d. induction l as [|x r IH]; [reflexivity|]. cbn [count_occ count_dep].
+  destruct (dep_dec x d) as [E|E].
+  - subst x. rewrite dep_eqb_refl, IH. reflexivity.
+  - destruct (dep_eqb d x) eqn:Ed; [apply dep_eqb_eq in Ed; congruence|]. rewrite IH. reflexivity.
+Qed.
+
+Lemma count_dep_In : forall d l, In d l <-> (count_dep d l > 0)%nat.
+Proof. intros d l. rewrite <- count_occ_dep. apply count_occ_In. Qed.
+
+Lemma count_dep_notin : forall d l, ~ In d l -> count_dep d l = O.
+Proof. intros d l H. rewrite <- count_occ_dep. apply count_occ_not_In. exact H. Qed.
+
+Lemma deps_perm_count : forall a b, deps_perm_eqb a b = true <-> forall d, count_dep d a = count_dep d b.
+Proof.
+  intros a b. unfold deps_perm_eqb. rewrite forallb_forall. split.
+  - intros H d. destruct (in_dec dep_dec d (a ++ b)) as [Hin|Hin].
+    + apply Nat.eqb_eq. apply H. exact Hin.
+    + rewrite !count_dep_notin; [reflexivity| |]; intro Hx; apply Hin; apply in_or_app; auto.
+  - intros H d _. apply Nat.eqb_eq. apply H.
+Qed.
+
+Lemma deps_perm_Permutation : forall a b, deps_perm_eqb a b = true <-> Permutation a b.
+Proof.
+  intros a b. rewrite deps_perm_count, (Permutation_count_occ dep_dec). split; intros H d.
+  - rewrite !count_occ_dep. apply H.
+  - rewrite <- !count_occ_dep. apply H.
+Qed.
+
+Lemma deps_perm_refl : forall l, deps_perm_eqb l l = true.
+Proof. intro l. apply deps_perm_Permutation. apply Permutation_refl. Qed.
+
+Lemma deps_perm_In : forall a b d, deps_perm_eqb a b = true -> In d a -> In d b.
+Proof. intros a b d H. apply Permutation_in. apply deps_perm_Permutation. exact H. Qed.
+
 Lemma keeps_executed_ext : forall univ m m', ext_ok m m' -> keeps_executed univ m m' = true.
 Proof.
   intros univ m m' H. unfold keeps_executed. apply forallb_forall. intros k _.
@@ -480,7 +527,7 @@ Proof.
   destruct o as [p src res dest ds|ks|i|i].
   - cbn [wf_op] in Hwf. apply andb_true_iff in Hwf. destruct Hwf as [Hnd _].
     destruct (step_retry p src res dest ds x Hnd) as [em [s' [E [Em [_ St]]]]].
-    rewrite E. cbn [fst snd st]. rewrite <- Em, deps_eqb_refl. cbn [andb].
+    rewrite E. cbn [fst snd st]. rewrite <- Em, deps_perm_refl. cbn [andb].
     apply forallb_forall. intros d Hd. apply St. eapply In_regroup. exact Hd.
   - destruct (snd (step (Deliver ks) x)) eqn:E; try reflexivity.
     + exfalso. unfold step, step_gen in E. rewrite Hl in E.
@@ -532,13 +579,86 @@ Qed.
 
 Lemma judge_step_retry : forall univ pre p src res dest ds ou failed post,
   judge_step univ pre (Retry p src res dest ds) (ou, failed, post) = true ->
-  exists em, ou = ORetry em /\ em = regroup p (expected_retry p src res dest ds pre failed) /\
+  exists em, ou = ORetry em /\ Permutation em (regroup p (expected_retry p src res dest ds pre failed)) /\
              (forall d, In d em -> startable (get post (dkey src d)) = true).
 Proof.
   intros univ pre p src res dest ds ou failed post H. unfold judge_step in H.
   apply andb_true_iff in H. destruct H as [_ H]. destruct ou as [em| | |]; try discriminate.
   apply andb_true_iff in H. destruct H as [H1 H2]. exists em. split; [reflexivity|].
-  split; [apply deps_eqb_eq; exact H1|]. intros d Hd. rewrite forallb_forall in H2. apply H2. exact Hd.
+  split; [apply deps_perm_Permutation; exact H1|]. intros d Hd. rewrite forallb_forall in H2. apply H2. exact Hd.
+Qed.
+
+Lemma NoDup_app_disj : forall (A : Type) (a b : list A),
+  NoDup a -> NoDup b -> (forall x, In x a -> In x b -> False) -> NoDup (a ++ b).
+Proof.
+  intros A a b Ha Hb Hd. induction Ha as [|x a Hx Ha IH]; [exact Hb|].
+  cbn [app]. constructor.
+  - intro Hin. apply in_app_or in Hin. destruct Hin as [Hin|Hin]; [contradiction|].
+    apply (Hd x); [left; reflexivity|exact Hin].
+  - apply IH. intros y Hy1 Hy2. apply (Hd y); [right; exact Hy1|exact Hy2].
+Qed.
+
+(* an accepted retry re-emits those and only those deposits of the block: selected, not recorded
+   executed, no failed store call - and each of them once *)
+Lemma judge_step_retry_exact : forall univ pre p src res dest ds failed post em,
+  wf_op (Retry p src res dest ds) = true ->
+  judge_step univ pre (Retry p src res dest ds) (ORetry em, failed, post) = true ->
+  NoDup em /\
+  forall d, In d em <->
+    (In d ds /\ sel_of p res dest d = true /\ is_exec (get pre (dkey src d)) = false /\ ~ In (dkey src d) failed).
+Proof.
+  intros univ pre p src res dest ds failed post em Hwf H.
+  destruct (judge_step_retry _ _ _ _ _ _ _ _ _ _ H) as [em0 [E [P _]]]. injection E as <-.
+  cbn [wf_op] in Hwf. apply andb_true_iff in Hwf. destruct Hwf as [Hnd Hdom].
+  assert (NDds : NoDup ds).
+  { clear - Hnd. induction ds as [|d r IH]; [constructor|]. cbn [map] in Hnd.
+    apply nodupk_cons in Hnd. destruct Hnd as [Hd Hr]. constructor; [|apply IH; exact Hr].
+    intro Hin. apply Hd. apply in_map. exact Hin. }
+  set (ex := expected_retry p src res dest ds pre failed) in *.
+  assert (NDex : NoDup ex) by (apply NoDup_filter; exact NDds).
+  assert (Pre : Permutation (regroup p ex) ex).
+  { destruct p; cbn [regroup]; try apply Permutation_refl.
+    apply NoDup_Permutation; [| exact NDex |].
+    - (* the domains are pairwise different, so the groups are disjoint *)
+      assert (G : forall doms, NoDup doms -> NoDup (flat_map (fun dom => filter (fun d => d_dst d =? dom) ex) doms)).
+      { induction doms as [|a doms IHd]; intro Hn; cbn [flat_map]; [constructor|].
+        inversion Hn as [|? ? Ha Hn']; subst.
+        apply NoDup_app_disj; [apply NoDup_filter; exact NDex|apply IHd; exact Hn'|].
+        intros d H1 H2. apply filter_In in H1. destruct H1 as [_ H1]. apply N.eqb_eq in H1.
+        apply in_flat_map in H2. destruct H2 as [b [Hb H2]]. apply filter_In in H2. destruct H2 as [_ H2].
+        apply N.eqb_eq in H2. apply Ha. rewrite <- H1, H2. exact Hb. }
+      apply G. unfold domains. repeat constructor; cbn; intuition discriminate.
+    - intro d. split.
+      + intro Hd. apply in_flat_map in Hd. destruct Hd as [dom [_ Hd]]. apply filter_In in Hd. apply Hd.
+      + intro Hd. apply in_flat_map.
+        assert (Hds : In d ds) by (unfold ex, expected_retry in Hd; apply filter_In in Hd; apply Hd).
+        rewrite forallb_forall in Hdom. specialize (Hdom d Hds). apply existsb_exists in Hdom.
+        destruct Hdom as [dom [Hdom Hq]]. exists dom. split; [exact Hdom|].
+        apply filter_In. split; [exact Hd|exact Hq]. }
+  assert (P2 : Permutation em ex) by (eapply Permutation_trans; eassumption).
+  split; [eapply Permutation_NoDup; [apply Permutation_sym; exact P2|exact NDex]|].
+  intro d. split.
+  - intro Hd. apply (Permutation_in _ P2) in Hd. unfold ex, expected_retry in Hd. apply filter_In in Hd.
+    destruct Hd as [Hds Hb]. apply andb_true_iff in Hb. destruct Hb as [Hb Hf].
+    apply andb_true_iff in Hb. destruct Hb as [Hs He]. apply negb_true_iff in He, Hf. apply memk_false in Hf.
+    repeat split; assumption.
+  - intros [Hds [Hs [He Hf]]]. apply (Permutation_in _ (Permutation_sym P2)). unfold ex, expected_retry.
+    apply filter_In. split; [exact Hds|]. apply memk_false in Hf. rewrite Hs, He, Hf. reflexivity.
+Qed.
+
+(* the judge does not look at the order inside the re-emitted batch *)
+Lemma judge_step_order_free : forall univ pre o em em' failed post,
+  Permutation em em' ->
+  judge_step univ pre o (ORetry em, failed, post) = true ->
+  judge_step univ pre o (ORetry em', failed, post) = true.
+Proof.
+  intros univ pre o em em' failed post P H. unfold judge_step in *.
+  apply andb_true_iff in H. destruct H as [Hk H]. rewrite Hk. cbn [andb].
+  destruct o as [p src res dest ds|ks|i|i]; try exact H.
+  apply andb_true_iff in H. destruct H as [H1 H2]. apply andb_true_iff. split.
+  - apply deps_perm_Permutation. apply deps_perm_Permutation in H1.
+    eapply Permutation_trans; [apply Permutation_sym; exact P|exact H1].
+  - rewrite forallb_forall in *. intros d Hd. apply H2. eapply Permutation_in; [apply Permutation_sym; exact P|exact Hd].
 Qed.
 
 (* ---------------------------------------------------------------------------------------------- *)
